@@ -1458,7 +1458,10 @@ fn main() {
             }
         }
         cx.one(&sc);
-        std::process::exit(cx.rep.finish());
+        let Ctx { rep, scratch, drv, .. } = cx;
+        drop(drv);
+        drop(scratch); // removes the scratch directory (process::exit runs no destructors)
+        std::process::exit(rep.finish());
     }
 
     // 0. corpus (hand-written witnesses for the acceptance mutations and past failures)
